@@ -1,6 +1,7 @@
 (* C02 — best-effort tree construction follows the token sequence.  The model (Model/Parser.v) consumes the handler calls
    the stdlib tokenizer makes; the open-element stack is a zipper.  Statements only; proofs in Proofs/ParserProofs.v. *)
-From AHP Require Import Model.Base Model.Str Model.Attr Model.Dom Model.Serial Model.Parser Gen.Tables Proofs.DomProofs Proofs.ParserProofs.
+From AHP Require Import Model.Base Model.Str Model.Attr Model.Dom Model.Serial Model.Search Model.Index Model.Parser Model.IndexedParser Gen.Tables
+     Proofs.DomProofs Proofs.ParserProofs Proofs.IndexProofs Proofs.IndexedParserProofs.
 
 (* end tags: ignored when no such element is open; closes exactly the innermost when it matches; otherwise closes what was
    opened inside the nearest open element of that name first *)
@@ -45,3 +46,10 @@ Example C02_ex_multiroot :
   | PRaise _ => False
   end.
 Proof. vm_compute. auto. Qed.
+
+(* elements are created in document order: the uids of the tree of any accepted feed are 0, 1, 2, ... in document order (so
+   "uid" and "document-order rank" coincide on parsed documents - the convention of every correspondence run - and uids are unique) *)
+Theorem C02_uids_are_document_ranks : forall cls ts1 ts2 s root, feed cls ts1 ts2 = POk s -> tree_of s = Some root ->
+  uids_of root = seq 0 (pnext s) /\ NoDup (uids_of root).
+Proof. exact parsed_uids_are_ranks. Qed.
+
